@@ -3,9 +3,10 @@ CONSTANTS
   Props <- PropsA
   Avps <- AvpsA
   MaxOps = 0
-  Calls <- CallsThorough
-  MaxCalls = 6
+  Calls <- CallsQuick
+  MaxCalls = 5
   CheckUnderLock = TRUE
-  Forced = FALSE
-INVARIANTS LTypeOK LockOK RunningHeld AgreedOnly OncePerHeight
+  GateSave = TRUE
+  Modes = {"free", "forced"}
+INVARIANTS LTypeOK LockOK RunningHeld AgreedOnly OncePerHeight EmitSched
 CHECK_DEADLOCK FALSE
